@@ -805,6 +805,12 @@ func (c *Ctx) valueDescContains(v ssa.Value, sub string) bool {
 
 // c01Listers: C01.7.
 func c01Listers(c *Ctx) {
+	// a configured directory that is missing at first and appears later, already holding
+	// Spec files, takes part in precedence from the query that first sees it: the query's
+	// update() must report the newly watched directory so that refreshIfRequired scans
+	if ok, found, pos := addReportsChange(c); found {
+		c.R.Check("C01.7", "late-directory-scanned", ok, pos, "when update() starts watching a configured directory it reports a change on every path: the query that notices the directory also scans it (its definitions resolve and shadow lower ones at once, not only after the next file event)")
+	}
 	r := c.R
 	type lister struct {
 		name  string
